@@ -342,6 +342,13 @@ def _decide_verus_unit(unit, tier, workdir, W, seed):
                 unit["rules"] = list(unit.get("rules", [])) + [x for x in other.get("rules", []) if x not in unit.get("rules", [])]
                 unit["auto_imported"] = list(unit.get("auto_imported", [])) + [f"{m.group(1)} (contract from {other['name']})"]
                 continue
+            # a proof HINT lost its anchor statement (the code was edited around it): try once more without such hints.  If the verifier
+            # then discharges everything, the unit is decided (hints carry no obligation of their own); if not, it stays undecided.
+            if "EXTRACTION-LOST" in str(e) and "statement selector" in str(e) and not (unit.get("opts") or {}).get("lenient_hints"):
+                unit = dict(unit)
+                unit["opts"] = dict(unit.get("opts") or {}, lenient_hints=True)
+                unit["hints_dropped"] = str(e)[-200:]
+                continue
             # time-out, lost anchor (the code was restructured) or a construct the verifier rejects: undecided.
             # If the unit has an executable postcondition, the search on the real code may still decide it.
             if "time-out" in str(e) or "EXTRACTION-LOST" in str(e) or "verus rejected the extracted text" in str(e):
@@ -349,6 +356,8 @@ def _decide_verus_unit(unit, tier, workdir, W, seed):
             raise
     if main is None:
         raise Undecided(f"{unit['name']}: helper functions could not be resolved")
+    if unit.get("hints_dropped") and main["errors"]:
+        raise Undecided(f"{unit['name']}: a proof hint lost its anchor ({unit['hints_dropped']}) and the proof does not go through without it (undecided, not a violation)")
     rep = main["report"]
     rn = (unit.get("opts") or {}).get("rename_fns") or {}   # R33: extracted functions renamed to avoid a clash with a ghost name
     for f in rep["functions"]:
